@@ -3,6 +3,7 @@ use vstd::prelude::*;
 use vstd::std_specs::convert::*;
 use vstd::std_specs::ops::*;
 use vstd::std_specs::cmp::*;
+use core::ops::Neg;
 //@include shims/macros.rs
 verus! {
 //@include shims/core.rs
@@ -35,6 +36,33 @@ impl ScriptStack for Vec<Vec<u8>> {
 // (harnesses push_number_all_i64: all i64; pop_number_all_short_elements: every element of 0..=5 bytes)
 //@stub ScriptStack for Vec<Vec<u8>>::push_number
 //@stub ScriptStack for Vec<Vec<u8>>::pop_number
+}
+pub mod stack_trait { pub use super::to_bigint; }
+//@enum Status @ src/interpreter/mod.rs clone
+//@struct State @ src/interpreter/state.rs clone
+//@enum ScriptBit @ src/script/script_bit.rs clonespec
+// TxScript carries the spending transaction: opaque here (CHECKSIG wiring is unit interp_sig / property C15)
+pub struct TxScript { pub input_index: usize }
+impl Clone for TxScript { #[verifier::external_body] fn clone(&self) -> (r: Self) ensures r == *self { unimplemented!() } }
+//@struct Interpreter @ src/interpreter/mod.rs
+//@include spec/interp.rs
+#[verifier::external_body] pub fn checksig(state: &mut State, txscript: &mut TxScript) -> (r: Result<bool, InterpreterError>) { unimplemented!() }
+#[verifier::external_body] pub fn multisig(state: &mut State, txscript: &mut TxScript) -> (r: Result<bool, InterpreterError>) { unimplemented!() }
+//@struct Hash @ src/hash/mod.rs clone
+impl Hash {
+//@stub Hash::to_bytes
+//@stub Hash::sha_256d
+//@stub Hash::sha_256
+//@stub Hash::sha_1
+//@stub Hash::ripemd_160
+//@stub Hash::hash_160
+}
+impl Interpreter {
+//@fn Interpreter::verify
+//@fn Interpreter::match_opcode
+//@fn Interpreter::match_script_bit
+//@fn Interpreter::next_impl
+//@fn Interpreter::run_impl
 }
 } // verus!
 fn main() {}
